@@ -76,11 +76,32 @@ def control_replay():
     return None
 
 
+def control_envelopes():
+    """Carrier / Units / Quiet / Session: a token that depends on the circumstance must be reported, a clean one must not."""
+    from . import carrier, units, quiet, session
+    out = []
+    for name, run, clean, dirty in (
+            ('carrier', carrier.run_carrier, ["np.sum(np.asarray(X, dtype=float) ** 2)"], ["np.sum(np.asarray(X) * np.asarray(X))"]),
+            ('units', units.run_units, [("np.sum((c * X) ** 2)", (2,), 2)], [("np.sum((c * X) ** 2) + 1e-40", (2,), 2)]),
+            ('quiet', quiet.run_quiet, [("np.arange(3.)", "np.arange(3.) + 0")], [("np.arange(3.)", "np.arange(3.) * 2")]),
+            ('session', session.run_session, ["np.arange(4.)", "X1[:3] * 2"], ["np.arange(4.)", "X1.__imul__(2)[:3]"])):
+        c1 = core.Check('SELFTEST', 'quick', 0)
+        run(c1, 'SELF', clean)
+        c2 = core.Check('SELFTEST', 'quick', 0)
+        run(c2, 'SELF', dirty)
+        if c1.violations:
+            return '%s: clean token reported: %r' % (name, c1.violations[0][0])
+        if not c2.violations:
+            return '%s: circumstance-dependent token accepted' % name
+        out.append(name)
+    return None
+
+
 def main():
     import os
     os.environ['VERIF_NO_EVIDENCE'] = '1'
     failed = 0
-    for name, f in (('trace validation', control_trace), ('observation events', control_obs), ('state replay', control_replay)):
+    for name, f in (('trace validation', control_trace), ('observation events', control_obs), ('state replay', control_replay), ('envelope replays', control_envelopes)):
         msg = f()
         print('%-20s %s' % (name, 'ok: corruptions rejected' if msg is None else 'BROKEN: ' + msg))
         failed += msg is not None
